@@ -26,6 +26,19 @@ def convert_slice(_slice: Slice) -> Call:
     )
 
 
+def convert_index(index: expr) -> expr:
+    """
+    Convert the index of a subscript to an expr that can be passed
+    as an argument: `a[1:2]` -> `slice(1, 2, None)`,
+    `a[1:2, 3]` -> `(slice(1, 2, None), 3)`
+    """
+    if isinstance(index, Slice):
+        return convert_slice(index)
+    if isinstance(index, Tuple):
+        return Tuple(elts=[convert_index(elt) for elt in index.elts], ctx=Load())
+    return index
+
+
 def list_wrapper(nodes: list[expr]) -> expr:
     return List(elts=nodes, ctx=Load())
 
